@@ -168,9 +168,11 @@ impl BaseGrid {
         let lon_e = header[3];
         let dlat = header[4].copysign(lat_s - lat_n);
         let dlon = header[5].copysign(lon_e - lon_w);
+        let (rows, cols) = grid_dimensions(header)?;
+        if !(header[6] >= 1. && header[6] <= 1e6) {
+            return Err(Error::General("Malformed grid"));
+        }
         let bands = header[6] as usize;
-        let rows = ((lat_s - lat_n) / dlat + 1.5).floor() as usize;
-        let cols = ((lon_e - lon_w) / dlon + 1.5).floor() as usize;
         let elements = rows * cols * bands;
 
         let offset = offset.unwrap_or(0);
@@ -200,6 +202,26 @@ impl BaseGrid {
         let (header, grid) = gravsoft_grid_reader(buf)?;
         BaseGrid::plain(&header, Some(&grid), None)
     }
+}
+
+/// The number of rows and columns described by a grid header starting with
+/// (lat_n, lat_s, lon_w, lon_e, dlat, dlon). Headers not describing a grid of
+/// at least 2 x 2 nodes (the minimum for interpolation) are refused, and so
+/// are headers with non-finite elements or zero-valued node distances.
+fn grid_dimensions(header: &[f64]) -> Result<(usize, usize), Error> {
+    if header.len() < 6 || header.iter().take(6).any(|h| !h.is_finite()) {
+        return Err(Error::General("Malformed grid header"));
+    }
+    let (lat_n, lat_s, lon_w, lon_e) = (header[0], header[1], header[2], header[3]);
+    let dlat = header[4].copysign(lat_s - lat_n);
+    let dlon = header[5].copysign(lon_e - lon_w);
+    let rows = ((lat_s - lat_n) / dlat + 1.5).floor();
+    let cols = ((lon_e - lon_w) / dlon + 1.5).floor();
+    // NaN (from 0/0) compares false, infinity is caught by the sanity limit
+    if !(rows >= 2. && cols >= 2. && rows * cols <= 1e9) {
+        return Err(Error::General("Malformed grid header"));
+    }
+    Ok((rows as usize, cols as usize))
 }
 
 // If the Gravsoft grid appears to be in angular units, convert it to radians
@@ -278,18 +300,10 @@ fn gravsoft_grid_reader(buf: &[u8]) -> Result<(Vec<f64>, Vec<f32>), Error> {
     header.swap(0, 1);
 
     // Count the number of bands
-    let lat_n = header[0];
-    let lat_s = header[1];
-    let lon_w = header[2];
-    let lon_e = header[3];
-
     // The Gravsoft header has inverted sign for dlat. We force
     // the two deltas to have signs compatible with the grid
     // organization
-    let dlat = header[4].copysign(lat_s - lat_n);
-    let dlon = header[5].copysign(lon_e - lon_w);
-    let rows = ((lat_s - lat_n) / dlat + 1.5).floor() as usize;
-    let cols = ((lon_e - lon_w) / dlon + 1.5).floor() as usize;
+    let (rows, cols) = grid_dimensions(&header)?;
     let bands = grid.len() / (rows * cols);
     if (rows * cols * bands) > grid.len() || bands < 1 {
         return Err(Error::General("Incomplete Gravsoft grid"));
